@@ -150,7 +150,12 @@ func UpperUnderscore(s string) string {
 		}
 		b.WriteRune(r)
 	}
-	return strings.ToUpper(b.String())
+	// runs of underscores inside the identifier count as one
+	out := b.String()
+	for strings.Contains(out, "__") {
+		out = strings.ReplaceAll(out, "__", "_")
+	}
+	return strings.ToUpper(out)
 }
 
 var htmlPretty = map[string]string{"a": "link", "br": "break", "b": "bold", "i": "italic", "li": "item", "ol": "ordered_list", "ul": "unordered_list", "p": "paragraph", "img": "image", "em": "emphasis"}
